@@ -101,21 +101,21 @@ type Failure struct {
 }
 
 type PathResult struct {
-	Job          *Job
-	Outcome      Outcome
-	Msg          string // panic message / hang site / unsupported reason
-	Site         string // panic site (file:line)
-	Func         string // function containing the site
-	Stack        []string
-	Witness      []uint64 // values of the nondet variables / choices in creation order
-	Obs          []Observation
-	Failures     []Failure
-	Covers       []string
-	Instrs       int64
-	Decisions    int
-	SymVars      int
-	Approx       bool // an approximate stub result influenced the path
-	StaticWrites []staticWrite
+	Job             *Job
+	Outcome         Outcome
+	Msg             string // panic message / hang site / unsupported reason
+	Site            string // panic site (file:line)
+	Func            string // function containing the site
+	Stack           []string
+	Witness         []uint64 // values of the nondet variables / choices in creation order
+	Obs             []Observation
+	Failures        []Failure
+	Covers          []string
+	Instrs          int64
+	Decisions       int
+	SymVars         int
+	Approx          bool // an approximate stub result influenced the path
+	StaticWrites    []staticWrite
 	LibStaticWrites int
 }
 
@@ -125,6 +125,7 @@ type Job struct {
 	Fuel     int64
 	MaxPaths int64
 	Tag      string
+	NoReplay bool // witnesses are not physically realisable natively (abstract arrays of arbitrary size)
 }
 
 type Stats struct {
@@ -165,32 +166,32 @@ type Engine struct {
 }
 
 type pathState struct {
-	eng  *Engine
-	i    *interpreter
-	job  *Job
-	slv  *solver
-	prefix    []decision
-	decisions []decision
-	vars      []*symVar
-	pc        []*Term
-	ev        evaluator
-	fuel      int64
-	instrs    int64
-	obs       []obsEntry
-	failures  []Failure
-	covers    map[string]bool
-	approx    bool
-	wrotePrint bool
-	nAbs      int
-	forks     []([]decision) // alternatives discovered on this path
-	funcs     map[*ssa.Function]int64
-	staticWrites []staticWrite
+	eng             *Engine
+	i               *interpreter
+	job             *Job
+	slv             *solver
+	prefix          []decision
+	decisions       []decision
+	vars            []*symVar
+	pc              []*Term
+	ev              evaluator
+	fuel            int64
+	instrs          int64
+	obs             []obsEntry
+	failures        []Failure
+	covers          map[string]bool
+	approx          bool
+	wrotePrint      bool
+	nAbs            int
+	forks           []([]decision) // alternatives discovered on this path
+	funcs           map[*ssa.Function]int64
+	staticWrites    []staticWrite
 	libStaticWrites int
-	choiceLog []uint64 // values of Choose/NondetBool in order (part of the witness)
-	witnessOrder []witnessSlot
-	st        *workerStats
-	rng       uint64
-	lastFn    *ssa.Function
+	choiceLog       []uint64 // values of Choose/NondetBool in order (part of the witness)
+	witnessOrder    []witnessSlot
+	st              *workerStats
+	rng             uint64
+	lastFn          *ssa.Function
 }
 
 type witnessSlot struct {
